@@ -5,8 +5,9 @@
    crossbar: rdata.valid is an unconditional strobe, a word offered while the FIFO is not writable is LOST).
    Both FIFOs are D_AsyncFifo instances; user-clock edges, sys-clock edges and coinciding edges interleave freely (= every
    period pair, phase, drift, pause).  Data values are irrelevant here (order is MC_AsyncFifo's business): only occupancy.
-   Result (TLC): the rdata FIFO holds at most  M + CmdDepth  words, so it cannot overflow iff  M + CmdDepth <= RdDepth;
-   the bound is tight (cover cfg).  With the real core M = cmd_buffer_depth + 1 (+1 if buffered) + reads already issued
+   Result (TLC, CmdDepth/RdDepth/M = 2/4/2, 2/8/4 and 4/16/4): the rdata FIFO holds at most  M + CmdDepth  words, so it cannot
+   overflow iff  M + CmdDepth <= RdDepth;  the bound is tight (MC_CrossingRd_cover.cfg reaches it) and one more
+   outstanding read overflows (MC_CrossingRd_neg.cfg, negative control).  With the real core M = cmd_buffer_depth + 1 (+1 if buffered) + reads already issued
    whose data has not returned, so the default depths (4 / 16) are safe for the default cmd_buffer_depth = 8 only as long as
    the in-flight part stays small, and cmd_buffer_depth = 16 overflows -- which the whole-core runs of C08 exhibit. *)
 EXTENDS D_AsyncFifo, TLC
@@ -15,7 +16,6 @@ VARIABLES c, d, inmem, ovf
 vars == <<c, d, inmem, ovf>>
 Init == c = FInit(CmdDepth) /\ d = FInit(RdDepth) /\ inmem = 0 /\ ovf = FALSE
 
-UPart(we) == /\ TRUE
 SysChoices == {<<acc, ret>> \in BOOLEAN \X BOOLEAN : (acc => inmem < M) /\ (ret => inmem > 0)}
 
 UTick == \E we \in BOOLEAN :
